@@ -50,6 +50,8 @@ type family struct {
 	table   string
 	typ     reflect.Type // struct type
 	index   []string     // a schema index (column names), may be nil
+	// clientIndex names the struct field of a single-column client index ("" if none)
+	clientIndex string
 }
 
 func handFamily() (family, error) {
@@ -61,11 +63,13 @@ func handFamily() (family, error) {
 	if err != nil {
 		return family{}, err
 	}
+	// a client index (non-default option): look-ups resolved through it are read paths too
+	cm.SetIndexes(map[string][]model.ClientIndex{"Row": {{Columns: []model.ColumnKey{{Column: "n"}}}}})
 	dm, errs := model.NewDatabaseModel(schema, cm)
 	if len(errs) > 0 {
 		return family{}, fmt.Errorf("%v", errs)
 	}
-	return family{name: "hand-written", dbModel: dm, table: "Row", typ: reflect.TypeOf(handRow{}), index: []string{"name"}}, nil
+	return family{name: "hand-written", dbModel: dm, table: "Row", typ: reflect.TypeOf(handRow{}), index: []string{"name"}, clientIndex: "N"}, nil
 }
 
 func serverdbFamily() (family, error) {
@@ -320,6 +324,15 @@ func readPaths(f family, rc *cache.RowCache, uuid string, probe interface{}) map
 		"Update(same contents)": func() (interface{}, error) {
 			return rc.Update(uuid, kit.DeepCopy(probe), false)
 		},
+	}
+	if f.clientIndex != "" {
+		// a model that carries nothing but the client-indexed value
+		paths["RowsByModels(client index)"] = func() (interface{}, error) {
+			p := reflect.New(f.typ)
+			p.Elem().FieldByName(f.clientIndex).Set(reflect.ValueOf(probe).Elem().FieldByName(f.clientIndex))
+			ms, err := rc.RowsByModels([]model.Model{p.Interface()})
+			return ms[uuid], err
+		}
 	}
 	if f.index != nil {
 		paths["RowByModel(index)"] = func() (interface{}, error) {
